@@ -142,6 +142,19 @@ fn macro_binding() {
         n += 1;
         if let Some(w) = run_case("", &[Param::Undelimited, Param::Delimited(d.clone())], true, r, &[a1, a2]) { println!("WITNESS {w}"); return; }
     } } } }
+    // three to nine parameters (TeX allows nine): undelimited and '.'-delimited mixed, every parameter used, in reverse
+    // order and the first and last twice; arguments alternate between a token and a group; also with the trailing #{
+    // form after the LAST parameter (nine parameters followed by #{ is legal: TeX.2021.476 tests for the brace first)
+    for k in 3..=9usize { for brace_form in [false, true] { for variant in 0..3usize {
+        let mut params: Vec<Param> = (0..k).map(|i| if (i + variant) % 3 == 1 { Param::Delimited(vec!['.']) } else { Param::Undelimited }).collect();
+        if brace_form { params[k - 1] = Param::Delimited(vec!['{']); }
+        let repl: String = format!("{}|#1#{k}", (1..=k).rev().map(|i| format!("#{i}")).collect::<String>());
+        let arg_texts: Vec<String> = (0..k).map(|i| match (i + variant) % 4 { 0 => ((b'a' + i as u8) as char).to_string(), 1 => format!("{{{}}}", (b'a' + i as u8) as char), 2 => format!("{{{}x}}", (b'a' + i as u8) as char), _ => format!("{}", (b'A' + i as u8) as char) }).collect();
+        let mut args: Vec<&str> = arg_texts.iter().map(|s| s.as_str()).collect();
+        if brace_form { args[k - 1] = "q"; }
+        n += 1;
+        if let Some(w) = run_case("", &params, brace_form, &repl, &args) { println!("WITNESS {w}"); return; }
+    } } }
     println!("STATS {{\"fn\": \"call\", \"cases\": {n}}}");
 }
 
